@@ -268,6 +268,15 @@ pub fn unary(s: &Rel, form: Form, top: bool) -> Vec<Rel> {
             true,
             false,
         );
+        // A13: an ungrouped aggregation whose select list starts with items that contain no aggregate
+        push(
+            "A13",
+            format!("SELECT 7 AS k, sum({nn}) AS x, count(*) AS y FROM {from}"),
+            vec![out_num("k", Kind::I, 7.0, false, true), out_num("x", n.kind, n.pv * 2.0, true, false), out_num("y", Kind::I, 1.0, true, true)],
+            vec!["aggregate", "ungrouped", "constant-before-aggregate"],
+            true,
+            false,
+        );
         if let Some(k) = p.k {
             let kn = &k.name;
             push("A3", format!("SELECT {kn} AS x, count(*) AS y FROM {from} GROUP BY {kn}"), vec![out("x", k), out_num("y", Kind::I, 1.0, true, true)], vec!["aggregate", "grouped"], true, false);
